@@ -50,7 +50,7 @@ func (fc *FuncCtx) oblige(fr *Frame, st *State, kind, label string, goal string,
 		fc.u.Assumptions["safety of callees executed in-line without a contract is not an obligation of the caller (a panic there ends the caller's path)"] = true
 		return nil
 	}
-	if fr.con != nil && fr.con.Flags["nosafety"] != "" && strings.HasPrefix(kind, "safety.") && !(kind == "safety.close" && fr.con.Flags["safety-close"] != "") {
+	if fr.con != nil && fr.con.Flags["nosafety"] != "" && strings.HasPrefix(kind, "safety.") && !(kind == "safety.close" && fr.con.Flags["safety-close"] != "") && !strings.Contains(","+fr.con.Flags["safety-keep"]+",", ","+strings.TrimPrefix(kind, "safety.")+",") {
 		fc.u.Assumptions["safety sweep (nil/index/type-assertion/overflow) is switched off for "+fr.prefix+" (`flag nosafety`): its contract only carries call-site obligations"] = true
 		return nil
 	}
